@@ -45,6 +45,7 @@ type State struct {
 	callSeq int
 	mapVer  Term
 	escaped []*ssa.Alloc
+	boxed   map[string]types.Type // interface payload reference -> static type of the boxed pointer
 }
 
 // mapGet: abstract map content, an uninterpreted function of the map reference,
@@ -136,6 +137,10 @@ func (st *State) clone() *State {
 		n.recDefs[k] = v
 	}
 	n.escaped = append([]*ssa.Alloc(nil), st.escaped...)
+	n.boxed = make(map[string]types.Type, len(st.boxed))
+	for k, v := range st.boxed {
+		n.boxed[k] = v
+	}
 	n.loops = append([]*Loop(nil), st.loops...)
 	n.defers = append([]deferRec(nil), st.defers...)
 	n.trace = append([]string(nil), st.trace...)
